@@ -260,12 +260,8 @@ def reference(t, ptr, chain, lit, script):
     return obs, cur
 
 
-MERGE_FINDING = 'merge-empty-sequence-value'
-
-
 def oracle(t, universe, ptr, chain, lit, script, out, vt=V.VT_INT):
-    """The property on the implementation's output. Returns a reason or None
-    (a reason starting with 'KNOWN:' falls into the class of the listed known finding)."""
+    """The property on the implementation's output. Returns a reason or None."""
     want_obs, final = reference(t, ptr, chain, lit, script)
     if out.get('ticket'):
         # non-duplicable values: the single consuming MEM is the observation
@@ -289,12 +285,6 @@ def oracle(t, universe, ptr, chain, lit, script, out, vt=V.VT_INT):
         return 'the lazy diff applied to the on-chain content does not give the final dictionary'
     want_view = {V.value_src(k): (final[V.canon(k)][1] if V.canon(k) in final else None) for k in universe}
     if out['merged'] != want_view:
-        if not vt.is_int and not vt.ticket and any(vt.micheline(z) == [] for _, _, z in out['items'] if z >= 0):
-            # class of the known finding: the diff sets some key to an empty list/set/map (Micheline [])
-            ok_elsewhere = all(out['merged'].get(k) == w for k, w in want_view.items()
-                               if not (w is not None and vt.micheline(w) == []))
-            if isinstance(out['merged'], dict) and ok_elsewhere:
-                return 'KNOWN:' + MERGE_FINDING
         return f'merge_lazy_diff of the emitted diff over the on-chain big_map answers GET with {out["merged"]}, the final dictionary is {want_view}'
     if ptr is not None and (out['action'] != 'update' or out['id'] != ptr):
         return f'diff of an existing big_map has action {out["action"]} / id {out["id"]}'
@@ -430,9 +420,6 @@ def run(ctx: lib.Ctx) -> None:
             coq_bad_marker = True
         else:
             why = oracle(t, pool, ptr, chain, lit, script, out, vt)
-            if why and why.startswith('KNOWN:') and ctx.finding(why[6:]):
-                ctx.known_hit(ctx.finding(why[6:]))
-                why = None
             coq_bad_marker = False
             coq_out = ('(' + clist(coq_obs(o) for o in out['obs']) + ', '
                        + clist(f'({V.value_coq(k)}, {V.cbt(h)}, {cZ(z)})' for k, h, z in out['items']) + ', '
